@@ -492,6 +492,74 @@ def check_key_pushes(chk, F):
                                F.fns[tph[0]]["span"])
             except (Unsupported, Panic) as e:
                 chk.fail(rid, "unanalysable:to_pubkeyhash|%s|%s" % (kind, kname), "unanalysable: %s" % e, where=getattr(e, "where", ""), kind="unanalysable")
+    # the key types' own conversions (what `to_public_key` / `to_x_only_pubkey` were taken to be above)
+    m2 = Machine(F, strict=True)
+    h2 = m2.hooks
+    h2["bitcoin::PublicKey::new"] = lambda m_, a, c: Adt("bitcoin::PublicKey", "PublicKey", {"compressed": True, "inner": deref(a[0])})
+    h2["bitcoin::PublicKey::from_slice"] = lambda m_, a, c: Adt("std::result::Result", "Ok", {"0": ("key-from-bytes", [deref(x) for x in deref(a[0]).items])})
+    h2["bitcoin::secp256k1::XOnlyPublicKey::serialize"] = lambda m_, a, c: PyVec([("xbyte", deref(a[0]), i) for i in range(32)])
+    h2["bitcoin::XOnlyPublicKey::serialize"] = h2["bitcoin::secp256k1::XOnlyPublicKey::serialize"]
+    for nm in ("<bitcoin::secp256k1::XOnlyPublicKey as std::convert::From<bitcoin::secp256k1::PublicKey>>::from",
+               "<bitcoin::XOnlyPublicKey as std::convert::From<bitcoin::secp256k1::PublicKey>>::from",
+               "bitcoin::secp256k1::XOnlyPublicKey::from", "bitcoin::XOnlyPublicKey::from"):
+        h2[nm] = lambda m_, a, c: ("xonly-of", deref(a[0]))
+    from .. import builtins as B_
+    saved_from = B_.TRAIT_TABLE.get(("std::convert::From", "from"))
+
+    def from_hook(m_, a, c):
+        st = " ".join([c.get("self_ty") or ""] + (c.get("targs") or []))
+        if "XOnlyPublicKey" in st:
+            return ("xonly-of", deref(a[0]))
+        return saved_from(m_, a, c) if saved_from else B_.NOT_HANDLED
+    B_.TRAIT_TABLE[("std::convert::From", "from")] = from_hook
+    try:
+        imps = {i.get("self_adt") or i.get("self_ty"): {it["name"]: it["path"] for it in i["items"]} for i in F.impls
+                if (i["trait"] or "").endswith("ToPublicKey")}
+        dflt = [q for q in F.fns if q.endswith("ToPublicKey::to_x_only_pubkey") and q in F.bodies and " as " not in q]
+        FULL = Adt("bitcoin::PublicKey", "PublicKey", {"compressed": False, "inner": "S"})
+        want_x = [2] + [("xbyte", "X", i) for i in range(32)]
+        rows = [("bitcoin::PublicKey", "to_public_key", FULL, lambda r: repr(deref(r)) == repr(FULL), "the key itself"),
+                ("bitcoin::secp256k1::PublicKey", "to_public_key", "S",
+                 lambda r: isinstance(deref(r), Adt) and deref(r).fields == {"compressed": True, "inner": "S"}, "the compressed key of S"),
+                ("bitcoin::XOnlyPublicKey", "to_public_key", "X", lambda r: deref(r) == ("key-from-bytes", want_x), "the key with bytes 02 || x"),
+                ("bitcoin::XOnlyPublicKey", "to_x_only_pubkey", "X", lambda r: deref(r) == "X", "the key itself")]
+        for ty, nm, val, good, what in rows:
+            pth = imps.get(ty, {}).get(nm)
+            if pth is None or pth not in F.bodies:
+                chk.fail(rid, "anchor|%s|%s" % (ty, nm), "<%s as ToPublicKey>::%s not found" % (ty, nm), kind="unanalysable")
+                continue
+            chk.saw(pth)
+            try:
+                r = m2.call_path(pth, [val])
+                chk.obligation(rid, good(r), "%s|%s" % (ty.split("::")[-1], nm), "<%s>::%s gives %r, expected %s" % (ty, nm, r, what), F.fns[pth]["span"])
+            except (Unsupported, Panic) as e:
+                chk.fail(rid, "unanalysable:%s|%s" % (ty, nm), "unanalysable: %s" % e, where=getattr(e, "where", ""), kind="unanalysable")
+        if len(dflt) == 1:
+            m2.hooks["ToPublicKey::to_public_key"] = lambda m_, a, c: Adt("bitcoin::PublicKey", "PublicKey", {"compressed": True, "inner": ("inner-of", deref(a[0]))})
+            try:
+                r = m2.call_callee({"def": dflt[0], "resolved": dflt[0], "name": "to_x_only_pubkey", "targs": ["PK"]}, ["KEY"])
+                chk.obligation(rid, deref(r) == ("xonly-of", ("inner-of", "KEY")), "default|to_x_only_pubkey",
+                               "the default to_x_only_pubkey gives %r, expected the x-only key of to_public_key().inner" % (r,), F.fns[dflt[0]]["span"])
+            except (Unsupported, Panic) as e:
+                chk.fail(rid, "unanalysable:default|to_x_only_pubkey", "unanalysable: %s" % e, where=getattr(e, "where", ""), kind="unanalysable")
+        else:
+            chk.fail(rid, "anchor|default to_x_only_pubkey", "ToPublicKey::to_x_only_pubkey default not found", kind="unanalysable")
+        for ty in ("bitcoin::PublicKey", "bitcoin::secp256k1::PublicKey", "bitcoin::XOnlyPublicKey", "descriptor::key::DefiniteDescriptorKey"):
+            for nm in ("to_sha256", "to_hash256", "to_ripemd160", "to_hash160"):
+                pth = imps.get(ty, {}).get(nm)
+                if pth is None or pth not in F.bodies:
+                    chk.fail(rid, "anchor|%s|%s" % (ty, nm), "<%s as ToPublicKey>::%s not found" % (ty, nm), kind="unanalysable")
+                    continue
+                try:
+                    r = m2.call_path(pth, ["HASH"])
+                    chk.obligation(rid, deref(r) == "HASH", "%s|%s" % (ty.split("::")[-1], nm), "<%s>::%s(h) gives %r, expected h" % (ty, nm, r), F.fns[pth]["span"])
+                except (Unsupported, Panic) as e:
+                    chk.fail(rid, "unanalysable:%s|%s" % (ty, nm), "unanalysable: %s" % e, where=getattr(e, "where", ""), kind="unanalysable")
+    finally:
+        if saved_from is None:
+            B_.TRAIT_TABLE.pop(("std::convert::From", "from"), None)
+        else:
+            B_.TRAIT_TABLE[("std::convert::From", "from")] = saved_from
 
 
 def run(chk):
